@@ -44,6 +44,21 @@ func VerifClockAdvance(d float64) {
 	verifClockOffset.Add(int64(d * float64(time.Second)))
 }
 
+var verifTicker atomic.Int64
+
+// verifTickerInterval is how often an update loop looks at the (virtual) clock: UpdateLoopTickerInterval unless the
+// harness shortened it together with letting virtual time run faster.
+func verifTickerInterval() time.Duration {
+	if v := verifTicker.Load(); v > 0 {
+		return time.Duration(v)
+	}
+
+	return UpdateLoopTickerInterval
+}
+
+// VerifSetTicker sets the interval for update loops started afterwards (0 = default).
+func VerifSetTicker(d time.Duration) { verifTicker.Store(int64(d)) }
+
 // VerifConn is one configured backend connection.
 type VerifConn struct {
 	ID       string   `json:"id"`
